@@ -135,6 +135,12 @@ impl<T: ?Sized + Trace> Weak<T> {
         self.weak_counter_marker().map_or(0, |wcm| wcm.counter() as u32)
     }
 
+    #[cfg(feature = "verif-hooks")]
+    #[inline]
+    pub(crate) fn verif_addrs(&self) -> (usize, usize) {
+        (self.cc.cast::<()>().as_ptr() as usize, self.metadata.map_or(0, |m| m.as_ptr() as usize))
+    }
+
     #[inline]
     fn weak_counter_marker(&self) -> Option<&WeakCounterMarker> {
         Some(unsafe { &self.metadata?.as_ref().weak_counter_marker })
